@@ -191,11 +191,8 @@ Definition tok_std (l : list tok) : str :=
   fold_left (fun acc t => match t with TStd v => v | _ => acc end) l [].
 
 (* keep the first occurrence of each element *)
-Fixpoint dedup (l : list str) (seen : list str) : list str :=
-  match l with
-  | [] => []
-  | x :: l' => if mem x seen then dedup l' seen else x :: dedup l' (x :: seen)
-  end.
+Definition dedup (l : list str) : list str :=
+  fold_left (fun acc x => if mem x acc then acc else acc ++ [x]) l [].
 
 Definition sort_set (l : list str) : list str := fold_left (fun acc x => set_insert x acc) l [].
 
